@@ -135,13 +135,13 @@ theorem not_any_setEq_of_fresh {T : Tiers} {tier : Tier} (hne : tier ≠ [])
   simp only [Bool.and_eq_true, List.all_eq_true, decide_eq_true_eq] at hs
   exact hf u hu (List.mem_flatten.2 ⟨t, ht, hs.1 u hu⟩)
 
-theorem tiersInsert_ok (h : UrlAssumption isUrl) {T T' : Tiers} {i : Int} {v : TierVal}
+theorem tiersInsert_ok {T T' : Tiers} {i : Int} {v : TierVal}
     (hT : TiersOK isUrl T) (hr : tiersInsert isUrl T i v = .ok T') : TiersOK isUrl T' := by
   unfold tiersInsert at hr
   split at hr
   · cases hr
   · rename_i tier hm
-    have hu := mkURLs_ok h hm
+    have hu := mkURLs_ok hm
     split at hr
     · rename_i hc
       cases hr
@@ -156,7 +156,7 @@ theorem tiersInsert_error {T : Tiers} {i : Int} {v : TierVal} {e : Err}
   · rename_i e' hm; cases hr; exact mkURLs_error hm
   · split at hr <;> cases hr
 
-theorem tiersAddAll_ok (h : UrlAssumption isUrl) {T T' : Tiers} {vs : List TierVal}
+theorem tiersAddAll_ok {T T' : Tiers} {vs : List TierVal}
     (hT : TiersOK isUrl T) (hr : tiersAddAll isUrl T vs = .ok T') : TiersOK isUrl T' := by
   induction vs generalizing T with
   | nil => unfold tiersAddAll at hr; cases hr; exact hT
@@ -165,7 +165,7 @@ theorem tiersAddAll_ok (h : UrlAssumption isUrl) {T T' : Tiers} {vs : List TierV
     split at hr
     · cases hr
     · rename_i T1 h1
-      exact ih (tiersInsert_ok h hT h1) hr
+      exact ih (tiersInsert_ok hT h1) hr
 
 theorem tiersAddAll_error {T : Tiers} {vs : List TierVal} {e : Err}
     (hr : tiersAddAll isUrl T vs = .error e) : e = .url := by
@@ -199,7 +199,7 @@ theorem tiersAddAll_id {acc T : Tiers} (h : TiersOK isUrl (acc ++ T)) :
     rw [hins]
     simpa using ih h'
 
-theorem tiersExtendLoop_ok (h : UrlAssumption isUrl) {T T' : Tiers} {last last' : Option Tiers}
+theorem tiersExtendLoop_ok {T T' : Tiers} {last last' : Option Tiers}
     {vs : List TierVal} {out : Outcome} (hT : TiersOK isUrl T)
     (hl : ∀ l, last = some l → TiersOK isUrl l)
     (hr : tiersExtendLoop isUrl T last vs = (T', last', out)) :
@@ -211,25 +211,25 @@ theorem tiersExtendLoop_ok (h : UrlAssumption isUrl) {T T' : Tiers} {last last' 
     split at hr
     · cases hr; exact ⟨hT, hl⟩
     · rename_i T1 h1
-      have h1' := tiersInsert_ok h hT h1
+      have h1' := tiersInsert_ok hT h1
       exact ih h1' (fun l hl' => by cases hl'; exact h1') hr
 
-theorem mkTrackers_ok (h : UrlAssumption isUrl) {v : TrackersVal} {T : Tiers}
+theorem mkTrackers_ok {v : TrackersVal} {T : Tiers}
     (hr : mkTrackers isUrl v = .ok T) : TiersOK isUrl T := by
   cases v with
   | none => simp only [mkTrackers] at hr; cases hr; exact TiersOK_nil
-  | str s => simp only [mkTrackers] at hr; exact tiersAddAll_ok h TiersOK_nil hr
-  | list vs => simp only [mkTrackers] at hr; exact tiersAddAll_ok h TiersOK_nil hr
+  | str s => simp only [mkTrackers] at hr; exact tiersAddAll_ok TiersOK_nil hr
+  | list vs => simp only [mkTrackers] at hr; exact tiersAddAll_ok TiersOK_nil hr
   | other => simp only [mkTrackers] at hr; cases hr
 
-theorem tiersSetItem_ok (h : UrlAssumption isUrl) {T : Tiers} {i : Int} {v : TierVal}
+theorem tiersSetItem_ok {T : Tiers} {i : Int} {v : TierVal}
     {w : Written} {out : Outcome} (hT : TiersOK isUrl T)
     (hr : tiersSetItem isUrl T i v = (some w, out)) : ∃ T', TiersOK isUrl T' ∧ w = wOf T' := by
   unfold tiersSetItem at hr
   split at hr
   · cases hr
   · rename_i tier hm
-    have hu := mkURLs_ok h hm
+    have hu := mkURLs_ok hm
     split at hr
     · rename_i hc
       split at hr
@@ -242,7 +242,7 @@ theorem tiersSetItem_ok (h : UrlAssumption isUrl) {T : Tiers} {i : Int} {v : Tie
     · cases hr; exact ⟨T, hT, rfl⟩
 
 /-- an operation on a tier other than index/slice assignment hands good tiers to the callback -/
-theorem tierOp_ok (h : UrlAssumption isUrl) {T : Tiers} {ti : Int} {op : UOp} {w : Written}
+theorem tierOp_ok {T : Tiers} {ti : Int} {op : UOp} {w : Written}
     {out : Outcome} (hT : TiersOK isUrl T) (hop : op.isSet = false)
     (hr : tierOp isUrl T ti op = (some w, out)) : ∃ T', TiersOK isUrl T' ∧ w = wOf T' := by
   unfold tierOp at hr
@@ -264,11 +264,11 @@ theorem tierOp_ok (h : UrlAssumption isUrl) {T : Tiers} {ti : Int} {op : UOp} {w
           | some t' =>
             rw [hl] at hr
             cases hr
-            have := (extendLoop_ok h hu (fun l hl' => by cases hl') he).1 t' hl
+            have := (extendLoop_ok hu (fun l hl' => by cases hl') he).1 t' hl
             exact ⟨_, afterTier_ok hT this, rfl⟩
         · rename_i last he
-          have hl := extendLoop_ok_last h hu he
-          exact tiersSetItem_ok h (afterTier_ok hT hl) hr
+          have hl := extendLoop_ok_last hu he
+          exact tiersSetItem_ok (afterTier_ok hT hl) hr
       · rename_i hni
         rcases ho : urlsOp isUrl (splice T k (k + 1) []).flatten tier op with ⟨last, out'⟩
         rw [ho] at hr
@@ -277,7 +277,7 @@ theorem tierOp_ok (h : UrlAssumption isUrl) {T : Tiers} {ti : Int} {op : UOp} {w
         | some t' =>
           rw [hl] at hr ho
           simp only [Option.map_some, Prod.mk.injEq, Option.some.injEq] at hr
-          exact ⟨_, afterTier_ok hT (urlsOp_ok h hu hop ho), hr.1.symm⟩
+          exact ⟨_, afterTier_ok hT (urlsOp_ok hu hop ho), hr.1.symm⟩
 
 /-- operations on the tiers container covered by the invariant theorem -/
 def TOp.clean : TOp → Bool
@@ -285,7 +285,7 @@ def TOp.clean : TOp → Bool
   | .tier _ op => !op.isSet
   | _ => true
 
-theorem tiersOp_ok (h : UrlAssumption isUrl) {T : Tiers} {op : TOp} {w : Written}
+theorem tiersOp_ok {T : Tiers} {op : TOp} {w : Written}
     {out : Outcome} (hT : TiersOK isUrl T) (hop : op.clean = true)
     (hr : tiersOp isUrl T op = (some w, out)) : ∃ T', TiersOK isUrl T' ∧ w = wOf T' := by
   have hdel : ∀ lo hi, lo ≤ hi → TiersOK isUrl (splice T lo hi []) := fun lo hi hle =>
@@ -296,17 +296,17 @@ theorem tiersOp_ok (h : UrlAssumption isUrl) {T : Tiers} {op : TOp} {w : Written
     simp only [tiersOp] at hr
     split at hr
     · cases hr
-    · rename_i T' h1; cases hr; exact ⟨T', tiersInsert_ok h hT h1, rfl⟩
+    · rename_i T' h1; cases hr; exact ⟨T', tiersInsert_ok hT h1, rfl⟩
   | append v =>
     simp only [tiersOp] at hr
     split at hr
     · cases hr
-    · rename_i T' h1; cases hr; exact ⟨T', tiersInsert_ok h hT h1, rfl⟩
+    · rename_i T' h1; cases hr; exact ⟨T', tiersInsert_ok hT h1, rfl⟩
   | extend vs =>
     simp only [tiersOp] at hr
     rcases he : tiersExtendLoop isUrl T none vs with ⟨T1, last, out'⟩
     rw [he] at hr
-    have := (tiersExtendLoop_ok h hT (fun l hl => by cases hl) he).2
+    have := (tiersExtendLoop_ok hT (fun l hl => by cases hl) he).2
     cases hl : last with
     | none => rw [hl] at hr; simp at hr
     | some l =>
@@ -317,12 +317,12 @@ theorem tiersOp_ok (h : UrlAssumption isUrl) {T : Tiers} {op : TOp} {w : Written
     simp only [tiersOp] at hr
     split at hr
     · rename_i T1 last e he
-      have := (tiersExtendLoop_ok h hT (fun l hl => by cases hl) he).2
+      have := (tiersExtendLoop_ok hT (fun l hl => by cases hl) he).2
       cases hl : last with
       | none => rw [hl] at hr; cases hr
       | some l => rw [hl] at hr; cases hr; exact ⟨l, this l hl, rfl⟩
     · rename_i T1 last he
-      have hx := tiersExtendLoop_ok h hT (fun l hl => by cases hl) he
+      have hx := tiersExtendLoop_ok hT (fun l hl => by cases hl) he
       split at hr
       · rename_i e h2
         cases hl : last with
@@ -330,7 +330,7 @@ theorem tiersOp_ok (h : UrlAssumption isUrl) {T : Tiers} {op : TOp} {w : Written
         | some l => rw [hl] at hr; cases hr; exact ⟨l, hx.2 l hl, rfl⟩
       · rename_i T2 h2
         cases hr
-        exact ⟨T2, tiersAddAll_ok h TiersOK_nil h2, rfl⟩
+        exact ⟨T2, tiersAddAll_ok TiersOK_nil h2, rfl⟩
   | delete i =>
     simp only [tiersOp] at hr
     split at hr
@@ -354,13 +354,13 @@ theorem tiersOp_ok (h : UrlAssumption isUrl) {T : Tiers} {op : TOp} {w : Written
     simp only [tiersOp] at hr
     split at hr
     · cases hr
-    · rename_i T' h1; cases hr; exact ⟨T', tiersAddAll_ok h TiersOK_nil h1, rfl⟩
-  | setItem i v => simp only [tiersOp] at hr; exact tiersSetItem_ok h hT hr
+    · rename_i T' h1; cases hr; exact ⟨T', tiersAddAll_ok TiersOK_nil h1, rfl⟩
+  | setItem i v => simp only [tiersOp] at hr; exact tiersSetItem_ok hT hr
   | setSlice a b vs => simp [TOp.clean] at hop
   | tier ti op =>
     simp only [tiersOp] at hr
     have : op.isSet = false := by simpa [TOp.clean] using hop
-    exact tierOp_ok h hT this hr
+    exact tierOp_ok hT this hr
 
 /-! ### webseeds / httpseeds -/
 
@@ -387,7 +387,7 @@ theorem lastSeeds_ok {stored last : Option (List String)} (hs : SeedsField isUrl
   | none => exact hs
   | some l => exact ⟨l, hl l rfl, rfl⟩
 
-theorem seedsOp_ok (h : UrlAssumption isUrl) {stored f : Option (List String)} {op : SOp}
+theorem seedsOp_ok {stored f : Option (List String)} {op : SOp}
     {out : Outcome} (hs : SeedsField isUrl stored) (hop : op.clean = true)
     (hr : seedsOp isUrl stored op = (f, out)) : SeedsField isUrl f := by
   cases op with
@@ -399,9 +399,9 @@ theorem seedsOp_ok (h : UrlAssumption isUrl) {stored f : Option (List String)} {
       cases hr
       refine ⟨items, ?_, rfl⟩
       cases v with
-      | none => simp only [mkSeeds] at hm; exact urlsReplace_ok h hm
-      | str s => simp only [mkSeeds] at hm; exact urlsReplace_ok h hm
-      | list us => simp only [mkSeeds] at hm; exact urlsReplace_ok h hm
+      | none => simp only [mkSeeds] at hm; exact urlsReplace_ok hm
+      | str s => simp only [mkSeeds] at hm; exact urlsReplace_ok hm
+      | list us => simp only [mkSeeds] at hm; exact urlsReplace_ok hm
       | other => simp only [mkSeeds] at hm; cases hm
   | edit uop =>
     have hop' : uop.isSet = false := by simpa [SOp.clean] using hop
@@ -412,21 +412,21 @@ theorem seedsOp_ok (h : UrlAssumption isUrl) {stored f : Option (List String)} {
       intro last out' ho
       apply lastSeeds_ok hs
       intro l hl; subst hl
-      exact urlsOp_ok h hW hop' ho
+      exact urlsOp_ok hW hop' ho
     cases uop with
     | iadd us =>
       simp only [seedsOp, getSeeds_writeSeeds hW] at hr
       rcases he : extendLoop isUrl [] W none us with ⟨last, o⟩
       rw [he] at hr
-      have hx := extendLoop_ok h hW (fun l hl => by cases hl) he
-      have hlast := extendLoop_ok_last h hW he
+      have hx := extendLoop_ok hW (fun l hl => by cases hl) he
+      have hlast := extendLoop_ok_last hW he
       cases o with
       | error e => simp only at hr; cases hr; exact lastSeeds_ok hs hx.1
       | ok =>
         simp only at hr
         split at hr
         · cases hr; exact lastSeeds_ok hs hx.1
-        · rename_i items' h2; cases hr; exact ⟨items', urlsReplace_ok h h2, rfl⟩
+        · rename_i items' h2; cases hr; exact ⟨items', urlsReplace_ok h2, rfl⟩
     | setItem i u => simp [UOp.isSet] at hop'
     | setSlice a b us => simp [UOp.isSet] at hop'
     | _ =>
@@ -495,7 +495,7 @@ theorem trackersOp_generic {s : MI} {op : TOp} (hop : ∀ v, op ≠ .set v) :
         | (last, out) => (applyWritten s last, out) := by
   cases op <;> first | rfl | exact absurd rfl (hop _)
 
-theorem trackersOp_inv (h : UrlAssumption isUrl) {s : MI} {op : TOp}
+theorem trackersOp_inv {s : MI} {op : TOp}
     (hs : TrackersFields isUrl s) (hop : op.clean = true) :
     TrackersFields isUrl (trackersOp isUrl s op).1 ∧
     (trackersOp isUrl s op).1.urlList = s.urlList ∧
@@ -506,7 +506,7 @@ theorem trackersOp_inv (h : UrlAssumption isUrl) {s : MI} {op : TOp}
     split
     · exact ⟨hs, rfl, rfl⟩
     · rename_i T hm
-      exact ⟨writeTrackers_fields s (mkTrackers_ok h hm), rfl, rfl⟩
+      exact ⟨writeTrackers_fields s (mkTrackers_ok hm), rfl, rfl⟩
   · have hns : ∀ v, op ≠ .set v := fun v hv => hset ⟨v, hv⟩
     rw [trackersOp_generic hns]
     obtain ⟨T, hT, ha, hl⟩ := hs
@@ -516,7 +516,7 @@ theorem trackersOp_inv (h : UrlAssumption isUrl) {s : MI} {op : TOp}
     cases last with
     | none => exact ⟨⟨T, hT, ha, hl⟩, rfl, rfl⟩
     | some w =>
-      obtain ⟨T', hT', rfl⟩ := tiersOp_ok h hT hop ho
+      obtain ⟨T', hT', rfl⟩ := tiersOp_ok hT hop ho
       exact ⟨writeTrackers_fields s hT', rfl, rfl⟩
 
 /-- operations covered by the invariant theorem: everything except index/slice assignment on a
@@ -532,31 +532,31 @@ theorem affected_false_iff {op : Op} :
   | webseeds o => cases o <;> simp [Op.affected, SOp.clean]
   | httpseeds o => cases o <;> simp [Op.affected, SOp.clean]
 
-theorem step_inv (h : UrlAssumption isUrl) {s : MI} {op : Op} (hs : Inv isUrl s)
+theorem step_inv {s : MI} {op : Op} (hs : Inv isUrl s)
     (hop : op.affected = false) : Inv isUrl (step isUrl s op).1 := by
   have hc := affected_false_iff.1 hop
   obtain ⟨ht, hw, hh⟩ := hs
   cases op with
   | trackers t =>
     simp only [step]
-    obtain ⟨h1, h2, h3⟩ := trackersOp_inv h ht hc
+    obtain ⟨h1, h2, h3⟩ := trackersOp_inv ht hc
     exact ⟨h1, h2 ▸ hw, h3 ▸ hh⟩
   | webseeds o =>
     simp only [step]
     rcases ho : seedsOp isUrl s.urlList o with ⟨f, out⟩
-    exact ⟨ht, seedsOp_ok h hw hc ho, hh⟩
+    exact ⟨ht, seedsOp_ok hw hc ho, hh⟩
   | httpseeds o =>
     simp only [step]
     rcases ho : seedsOp isUrl s.httpseeds o with ⟨f, out⟩
-    exact ⟨ht, hw, seedsOp_ok h hh hc ho⟩
+    exact ⟨ht, hw, seedsOp_ok hh hc ho⟩
 
-theorem run_inv (h : UrlAssumption isUrl) {s : MI} {ops : List Op} (hs : Inv isUrl s)
+theorem run_inv {s : MI} {ops : List Op} (hs : Inv isUrl s)
     (hop : ∀ op ∈ ops, op.affected = false) : Inv isUrl (run isUrl s ops) := by
   induction ops generalizing s with
   | nil => exact hs
   | cons op ops ih =>
     simp only [run]
-    exact ih (step_inv h hs (hop op (by simp))) (fun o ho => hop o (by simp [ho]))
+    exact ih (step_inv hs (hop op (by simp))) (fun o ho => hop o (by simp [ho]))
 
 /-- the invariant implies the property as stated (`Spec.holds` on the read-back lists) -/
 theorem Inv_holds {s : MI} (hs : Inv isUrl s) :
